@@ -35,35 +35,43 @@ inductive FrameRes where
   | err   -- io.ErrUnexpectedEOF: the stream ended inside a prefix or a body
   deriving Repr
 
-/-- `frame.Reader.Read`. -/
-def readFrame (cs : Chunks) : FrameRes :=
+/-- `frame.Reader.Read` with fast-path threshold `thr`. The error *kind* follows the Go
+library: `io.ReadFull` reports plain `io.EOF` when not a single byte arrived (so a stream that
+ends right after a complete prefix looks like a clean end) and `io.ErrUnexpectedEOF` after a
+partial read; `io.CopyN` reports `io.EOF` for every shortfall. -/
+def readFrameT (thr : Nat) (cs : Chunks) : FrameRes :=
   match readFull 4 cs with
   | (hdr, cs1) =>
     if hdr.length = 0 then .eof
     else if hdr.length < 4 then .err
     else
-      if deN hdr < fastPathFrameSize then
+      if deN hdr < thr then
         if deN hdr = 0 then .ok [] cs1
         else
           match readFull (deN hdr) cs1 with
-          | (b, cs2) => if b.length = deN hdr then .ok b cs2 else .err
+          | (b, cs2) => if b.length = deN hdr then .ok b cs2 else if b.length = 0 then .eof else .err
       else
         match copyN (deN hdr) cs1 with
-        | (b, cs2) => if b.length = deN hdr then .ok b cs2 else .err
+        | (b, cs2) => if b.length = deN hdr then .ok b cs2 else .eof
 
-/-- read frames until the stream ends; the flag says whether it ended cleanly
-(on a frame boundary). -/
-def readFramesN : Nat → Chunks → List Bytes × Bool
+/-- `frame.Reader.Read` as shipped. -/
+def readFrame (cs : Chunks) : FrameRes := readFrameT fastPathFrameSize cs
+
+/-- read frames until the stream ends; the flag says whether the final error was
+plain `io.EOF` (a frame boundary — or, see `readFrameT`, a prefix with nothing after it). -/
+def readFramesN (thr : Nat) : Nat → Chunks → List Bytes × Bool
   | 0, _ => ([], false)
   | f + 1, cs =>
-    match readFrame cs with
+    match readFrameT thr cs with
     | .eof => ([], true)
     | .err => ([], false)
     | .ok m rest =>
-      match readFramesN f rest with
+      match readFramesN thr f rest with
       | (ms, c) => (m :: ms, c)
 
-def readFrames (cs : Chunks) : List Bytes × Bool := readFramesN (cs.flatten.length + 1) cs
+def readFramesT (thr : Nat) (cs : Chunks) : List Bytes × Bool := readFramesN thr (cs.flatten.length + 1) cs
+
+def readFrames (cs : Chunks) : List Bytes × Bool := readFramesT fastPathFrameSize cs
 
 /-- the byte stream carrying the given messages. -/
 def frames (msgs : List Bytes) : Bytes := (msgs.map frame).flatten
